@@ -584,9 +584,23 @@ fn boundaries(cx: &mut Ctx, seed: u64) {
     for n in [31usize, 32, 255, 256, 8190, 16384, 65535, 65536] {
         vals.push(V::Seq(vec![V::Str("s".repeat(n))]));
     }
+    // multi-byte text long enough to cross several of the parsers' refills (YAML: 16 KiB requests)
+    vals.push(V::Seq(vec![V::Str("\u{20ac}".repeat(9000))]));
+    vals.push(V::Map(vec![(V::Str("k".into()), V::Str("\u{20ac}\u{1f600}\u{e9}x".repeat(9000)))]));
+    // nesting well inside MessagePack's limit of 1024 but beyond half of it (maps and arrays)
+    let first_deep = vals.len();
+    for depth in [520usize, 1000] {
+        for map in [true, false] {
+            let mut v = V::Int(7);
+            for _ in 0..depth {
+                v = if map { V::Map(vec![(V::Str("k".into()), v)]) } else { V::Seq(vec![v]) };
+            }
+            vals.push(v);
+        }
+    }
     for (i, v) in vals.iter().enumerate() {
         for fmt in ["msgpack", "json", "yaml"] {
-            if fmt != "msgpack" && v.nodes() > 70000 {
+            if fmt != "msgpack" && (v.nodes() > 70000 || i >= first_deep) {
                 continue;
             }
             // the document alone, and between two small neighbours
